@@ -122,7 +122,7 @@ func genRemoveConns(t *rapid.T, op *LOp) {
 // genOverlap draws the second operator's request for a removal of the HTTP listener name.
 func genOverlap(t *rapid.T, name string, pred map[string]string) *LOp {
 	o := &LOp{Name: name}
-	switch rapid.SampledFrom([]string{"add-same", "add-same", "add-other", "edit", "remove", "remove"}).Draw(t, "overlap") {
+	switch rapid.SampledFrom([]string{"add-same", "add-same", "add-same", "add-other", "edit", "remove", "remove"}).Draw(t, "overlap") {
 	case "add-same", "add-other":
 		o.Op = "add"
 		o.Kind = rapid.SampledFrom([]string{"http", "http", "smb", "ext", "svc"}).Draw(t, "okind")
@@ -135,7 +135,7 @@ func genOverlap(t *rapid.T, name string, pred map[string]string) *LOp {
 		if o.Kind == "svc" {
 			o.SvcReply = "ok"
 		}
-		if rapid.IntRange(0, 2).Draw(t, "other") == 0 {
+		if rapid.IntRange(0, 3).Draw(t, "other") == 0 {
 			for _, n := range append(append([]string(nil), namesA...), "d") {
 				if _, taken := pred[n]; !taken && n != name {
 					o.Name = n
@@ -237,7 +237,7 @@ func genB(t *rapid.T) CaseA {
 	ops = append(ops, genOps(t, rapid.IntRange(0, 2).Draw(t, "n2"), pred, &none)...)
 	if pred[name] == "http" {
 		rm := LOp{Op: "remove", Name: name}
-		if rapid.IntRange(0, 3).Draw(t, "with-overlap") == 0 {
+		if rapid.Bool().Draw(t, "with-overlap") {
 			rm.Overlap = genOverlap(t, name, pred)
 		} else {
 			genRemoveConns(t, &rm)
@@ -902,6 +902,9 @@ func checkA(c CaseA) *core.Violation {
 			if v := w.invariants(label); v != nil {
 				return v
 			}
+			if v := modelCheck(label); v != nil {
+				return v
+			}
 			if me != nil && me.kind == "http" {
 				old := me.cfg
 				me.cfg = cfg
@@ -949,7 +952,75 @@ func checkA(c CaseA) *core.Violation {
 				}
 				label += "-with-" + op.Conns + "-connection"
 			}
-			v := w.operate("remove", packager.Type.Listener.Remove, map[string]string{"Name": op.Name})
+			rmInfo := map[string]string{"Name": op.Name}
+			var (
+				v        *core.Violation
+				ov       = op.Overlap
+				ovAdd    *addCtx
+				ovSentIn bool // the second request was dispatched and answered inside the Stop() window
+			)
+			if ov != nil && me != nil && me.kind == "http" && held == nil {
+				// ---- operator two's request inside operator one's removal
+				label += "-overlap-" + ov.Op
+				if ov.Op == "add" {
+					if ov.Name == op.Name {
+						label += "-same-name"
+					} else {
+						label += "-other-name"
+					}
+					if _, exists := model[ov.Name]; exists && ov.Name != op.Name {
+						ov = nil // replayed against another history: the "other" name is taken; plain removal
+					}
+				}
+			} else {
+				ov = nil
+			}
+			if ov == nil {
+				v = w.operate("remove", packager.Type.Listener.Remove, rmInfo)
+			} else {
+				if ov.Op == "add" {
+					var ok bool
+					if ovAdd, ok = addPrep(*ov, me.port); !ok {
+						return nil
+					}
+					// whether the teamserver takes it depends on the name being free at that moment;
+					// demanded is only that what it leaves behind is consistent
+					ovAdd.lenient = ov.Name == op.Name
+					ovAdd.me, ovAdd.before = nil, nil
+				}
+				first := make(chan *core.Violation, 1)
+				go func() { first <- w.operate("remove", packager.Type.Listener.Remove, rmInfo) }()
+				// the window: operator one's goroutine is inside (*HTTP).Stop()
+				inStop := func() bool { return svcx.CountGoroutines("handlers.(*HTTP).Stop(") > 0 }
+				dl := time.Now().Add(svcx.Bound)
+				for !inStop() && len(first) == 0 && time.Now().Before(dl) {
+					time.Sleep(500 * time.Microsecond)
+				}
+				if inStop() {
+					time.Sleep(300 * time.Millisecond) // well inside the 5 s, clear of the entry into Stop()
+					var v2 *core.Violation
+					switch ov.Op {
+					case "add":
+						v2 = addSend(ovAdd)
+					case "edit":
+						v2 = w.operate("edit", packager.Type.Listener.Edit, httpInfo(op.Name, me.port, httpCfg{UA: ov.UA, Uris: ov.Uris, Headers: ov.Headers}, me.op))
+					case "remove":
+						// enters Stop() itself and returns ~5 s later, after operator one's removal
+						// has finished: no two goroutines ever write at the same moment
+						v2 = w.operate("remove-during-removal", packager.Type.Listener.Remove, rmInfo)
+					}
+					ovSentIn = ov.Op == "remove" || inStop()
+					v = <-first
+					if v == nil {
+						v = v2
+					}
+				} else {
+					v = <-first
+				}
+				if !ovSentIn {
+					skip("overlap-window-missed", nil)
+				}
+			}
 			quiet := svcx.Quiesce()
 			for _, c := range held {
 				c.Close()
@@ -960,15 +1031,35 @@ func checkA(c CaseA) *core.Violation {
 			if !quiet || !svcx.Quiesce() {
 				return inconclusive("teamserver goroutines did not come to rest after remove")
 			}
-			if after := find(ts, op.Name); len(after) != 0 {
+			after := find(ts, op.Name)
+			if len(after) != 0 && (len(before) == 0 || after[0] == before[0] || ovAdd == nil || ovAdd.op.Name != op.Name) {
 				return core.V("listener|remove|still-listed|"+label, "step %d: %s %q: ts.Listeners still holds %d listener(s) of that name", i, label, op.Name, len(after))
 			}
 			delete(model, op.Name)
+			if ovAdd != nil && ovSentIn {
+				// the add of operator two: either no trace, or a listener in all three views
+				if v := addJudge(i, ovAdd, label); v != nil {
+					return v
+				}
+			} else if ovAdd != nil {
+				if l := find(ts, ovAdd.op.Name); len(l) > 0 {
+					return nil // window missed and the add came too early or late to be judged: abandoned (counted)
+				}
+			}
 			if v := w.invariants(label); v != nil {
 				return v
 			}
+			if v := modelCheck(label); v != nil {
+				return v
+			}
 			if me != nil && me.kind == "http" && me.active && me.port != "" {
-				if !svcx.Refuses(me.port) && svcx.OwnListening(me.port) {
+				reused := false
+				for _, e := range model {
+					if e.kind == "http" && e.active && e.port == me.port {
+						reused = true // operator two's new listener took the freed port
+					}
+				}
+				if !reused && !svcx.Refuses(me.port) && svcx.OwnListening(me.port) {
 					return core.V("listener|remove|http|still-accepting", "step %d: removed HTTP listener %q still accepts TCP connections on port %s", i, op.Name, me.port)
 				}
 			}
@@ -982,7 +1073,7 @@ func checkA(c CaseA) *core.Violation {
 func classifyA(c CaseA) core.Class {
 	var cl core.Class
 	pred := map[string]string{}
-	dup, unknown, failed, httpRm, stale, unusual, inflight := 0, 0, 0, 0, 0, 0, 0
+	dup, unknown, failed, httpRm, stale, unusual, inflight, overlap := 0, 0, 0, 0, 0, 0, 0, 0
 	kinds := map[string]bool{}
 	for _, op := range c.Ops {
 		k, present := pred[op.Name]
@@ -1041,6 +1132,22 @@ func classifyA(c CaseA) core.Class {
 				cl.Labels = append(cl.Labels, "remove:"+k)
 				if k == "http" {
 					httpRm++
+					if o := op.Overlap; o != nil {
+						what := o.Op
+						if o.Op == "add" {
+							if o.Name == op.Name {
+								what = "add-same-name-" + o.Kind
+							} else {
+								what = "add-other-name-" + o.Kind
+								pred[o.Name] = o.Kind
+							}
+							if o.Kind == "http" {
+								what += "-port-" + o.Port
+							}
+						}
+						cl.Labels = append(cl.Labels, "remove-http-overlapping-request:"+what)
+						overlap++
+					}
 					c := op.Conns
 					if c == "" {
 						c = "none"
@@ -1066,7 +1173,7 @@ func classifyA(c CaseA) core.Class {
 		ks = append(ks, k)
 	}
 	sort.Strings(ks)
-	cl.Fingerprint = fmt.Sprintf("dup=%d|unk=%d|fail=%d|httprm=%d|stale=%d|emptyfield=%d|inflightrm=%d|kinds=%s", b(dup), b(unknown), b(failed), b(httpRm), b(stale), b(unusual), b(inflight), strings.Join(ks, "+"))
+	cl.Fingerprint = fmt.Sprintf("dup=%d|unk=%d|fail=%d|httprm=%d|stale=%d|emptyfield=%d|inflightrm=%d|overlap=%d|kinds=%s", b(dup), b(unknown), b(failed), b(httpRm), b(stale), b(unusual), b(inflight), b(overlap), strings.Join(ks, "+"))
 	return cl
 }
 
